@@ -76,6 +76,37 @@ impl McpManager {
         }
         */
         self.tool_spec_version_ref_map = tool_spec_version_ref_map;
+        self.sync_tool_spec_ref_count();
+    }
+
+    /// 引用计数不保存在快照中：重建引用索引后，同步各工具版本上的引用计数
+    fn sync_tool_spec_ref_count(&mut self) {
+        let mut changed_specs = Vec::new();
+        for (tool_key, tool_spec) in &self.tool_spec_map {
+            let mut new_spec = tool_spec.as_ref().to_owned();
+            let mut changed = false;
+            for (version, spec_version) in new_spec.versions.iter_mut() {
+                let count = if let Some(m) = self.tool_spec_version_ref_map.get(tool_key) {
+                    if let Some(c) = m.get(version) {
+                        *c
+                    } else {
+                        0
+                    }
+                } else {
+                    0
+                };
+                if spec_version.ref_count != count {
+                    spec_version.ref_count = count;
+                    changed = true;
+                }
+            }
+            if changed {
+                changed_specs.push((tool_key.clone(), new_spec));
+            }
+        }
+        for (tool_key, spec) in changed_specs {
+            self.tool_spec_map.insert(tool_key, Arc::new(spec));
+        }
     }
 
     fn calculate_tool_ref(
